@@ -92,10 +92,14 @@ def load_known():
 def finish(ctx, prog, out=print):
     """Apply floors, match known findings, write evidence, return exit code."""
     from .engine.program import AnalysisError
-    for rule, what, got, floor in ctx.floors:
-        if got < floor:
-            raise AnalysisError("rule %s matched %d %s, fewer than the %d confirmed by hand on the pinned tree "
-                                "(anchor moved or rule went vacuous)" % (rule, got, what, floor))
+    short = [(rule, what, got, floor) for rule, what, got, floor in ctx.floors if got < floor]
+    if short and not ctx.findings:
+        rule, what, got, floor = short[0]
+        raise AnalysisError("rule %s matched %d %s, fewer than the %d confirmed by hand on the pinned tree "
+                            "(anchor moved or rule went vacuous)" % (rule, got, what, floor))
+    for rule, what, got, floor in short:
+        # a shortfall next to reported violations: the violations are the verdict, the shortfall is shown with them
+        out("NOTE property=%s rule %s matched %d %s (floor %d): the code it anchors on has changed shape" % (ctx.prop, rule, got, what, floor))
     known = [k for k in load_known() if k.get("property") == ctx.prop and k.get("status", "known") == "known"]
     known_keys = {k["key"]: k for k in known}
     violations = []
